@@ -102,3 +102,78 @@ Theorem C02_no_post : forall d hs g c, wf_holes d hs -> reachable d hs g ->
   must_post g = false /\ apply d g (Blind c) = None.
 Proof. exact no_post_reachable. Qed.
 Print Assumptions C02_no_post.
+
+(* ---------- the settlement in terms of the rule-book hand order ---------- *)
+From RP Require Spec.SpecPoker Spec.SpecHand Spec.SpecSettleRules Proofs.C02_RuleBook.
+
+(* winner_takes_or_split compares the numeric keys `strength_key` of the two strengths.  On the
+   well-formed strengths the evaluator produces (C01_strength_wf) that comparison IS derive(Ord)
+   on Strength (cmp_strength) ... *)
+Theorem C02_key_is_strength_order : forall d a b, SpecHand.wf_strength d a -> SpecHand.wf_strength d b ->
+  N.compare (strength_key d a) (strength_key d b) = cmp_strength d a b.
+Proof. exact C02_RuleBook.key_compare. Qed.
+Print Assumptions C02_key_is_strength_order.
+
+(* ... in the three forms the settlement uses it (kb < ka, ka < kb, ka = kb) *)
+Theorem C02_key_order : forall d a b, SpecHand.wf_strength d a -> SpecHand.wf_strength d b ->
+  ((strength_key d b < strength_key d a)%N <-> cmp_strength d a b = Gt) /\
+  ((strength_key d a < strength_key d b)%N <-> cmp_strength d a b = Lt) /\
+  (strength_key d a = strength_key d b <-> cmp_strength d a b = Eq).
+Proof. exact C02_RuleBook.key_order. Qed.
+Print Assumptions C02_key_order.
+
+(* ... and therefore (C01_order, C01_strength_wf) the keys of the strengths of two actual hands of
+   5..7 cards compare as the rule book compares the hands (best five cards, Spec/SpecPoker.v) *)
+Theorem C02_key_is_rule_book : forall d h1 h2 a b, SpecHand.valid_hand d h1 -> SpecHand.valid_hand d h2 ->
+  strength_of d h1 = Some a -> strength_of d h2 = Some b ->
+  N.compare (strength_key d a) (strength_key d b)
+  = SpecPoker.cmp_spec d (hand_cards h1) (hand_cards h2).
+Proof. exact C02_RuleBook.key_rule_book. Qed.
+Print Assumptions C02_key_is_rule_book.
+
+Example ex_key_hyps :
+  SpecHand.valid_hand Standard 499%N /\ SpecHand.valid_hand Standard 508%N /\
+  (exists a b, strength_of Standard 499%N = Some a /\ strength_of Standard 508%N = Some b /\
+               SpecHand.wf_strength Standard a /\ SpecHand.wf_strength Standard b /\
+               N.compare (strength_key Standard a) (strength_key Standard b) = Eq).
+Proof.
+  split; [repeat split; vm_compute; congruence|]. split; [repeat split; vm_compute; congruence|].
+  eexists. eexists. split; [vm_compute; reflexivity|]. split; [vm_compute; reflexivity|].
+  split; [|split]; [repeat split; vm_compute; congruence ..|vm_compute; reflexivity].
+Qed.
+
+(* the conclusion of C02_settle with the rule-book order: at a showdown the board has five cards,
+   both seats hold a valid seven-card hand (hole cards + board), and the pot goes to the seat whose
+   hand is the better one by cmp_spec (equal hands: each takes back its own chips).
+   Stated for histories whose drawn card sets are u64 values (reachable64, as in Rust, where Hand
+   is a u64): the model's `Draw (h : N)` also accepts an h with bits above 63 and the board is then
+   not a hand of the deck (C14 / cards_inv_reachable_false); C02_settle itself covers those too. *)
+Theorem C02_split_is_rule_book : forall d g rw, C02_Cards.card_inv64 d g -> must_stop g = true ->
+  winner_takes_or_split d g rw -> SpecSettleRules.rule_book_settlement d g rw.
+Proof. exact C02_RuleBook.split_rule_book. Qed.
+Print Assumptions C02_split_is_rule_book.
+
+Theorem C02_settle_rule_book : forall d hs g, wf_holes d hs -> reachable64 d hs g -> must_stop g = true ->
+  exists rw, settlements d g = Some rw /\ sumZ rw = pot g /\ SpecSettleRules.rule_book_settlement d g rw.
+Proof. exact C02_RuleBook.settle_rule_book. Qed.
+Print Assumptions C02_settle_rule_book.
+
+(* the hypotheses are satisfiable: the showdown above (2c2d against 2h2s on 3c3d3h3s4c: a split),
+   and AcAd in the second seat (four threes with an ace beats four threes with a four) *)
+Example ex_reachable64 : reachable64 Standard ex_holes ex_terminal.
+Proof. exists ex_root, ex_history. split; [vm_compute; reflexivity|]. split; [|vm_compute; reflexivity].
+  repeat constructor. Qed.
+Example ex_rule_book_winner :
+  let hs := [3%N; 844424930131968%N] in
+  wf_holes Standard hs /\
+  exists g0 g, root Standard hs = Some g0 /\ run Standard g0 ex_history = Some g /\
+    Forall action_u64 ex_history /\ must_stop g = true /\ settlements Standard g = Some [0; 4] /\
+    match seats g with
+    | [a; b] => SpecPoker.cmp_spec Standard (hand_cards (SpecSettleRules.showdown_hand g a))
+                                            (hand_cards (SpecSettleRules.showdown_hand g b)) = Lt
+    | _ => False end.
+Proof.
+  split; [eexists; eexists; repeat split; reflexivity|].
+  eexists. eexists. split; [vm_compute; reflexivity|]. split; [vm_compute; reflexivity|].
+  split; [repeat constructor|]. split; [vm_compute; reflexivity|]. split; vm_compute; reflexivity.
+Qed.
